@@ -476,8 +476,18 @@ func (p *Posix) DeleteBucket(_ context.Context, bucket string) error {
 		return err
 	}
 
-	// Remove the bucket
-	err = os.RemoveAll(bucket)
+	// Remove the bucket. Only the temp directory is removed recursively,
+	// the bucket directory itself has to be empty by now: an object
+	// that was uploaded since the check above makes the removal fail
+	// instead of being deleted along with the bucket
+	err = os.RemoveAll(filepath.Join(bucket, metaTmpDir))
+	if err != nil && !errors.Is(err, fs.ErrNotExist) {
+		return fmt.Errorf("remove bucket temp dir: %w", err)
+	}
+	err = os.Remove(bucket)
+	if errors.Is(err, syscall.ENOTEMPTY) || errors.Is(err, syscall.EEXIST) {
+		return s3err.GetAPIError(s3err.ErrBucketNotEmpty)
+	}
 	if err != nil {
 		return fmt.Errorf("remove bucket: %w", err)
 	}
